@@ -320,6 +320,28 @@ unsafe extern "C" fn sim_free(p: *mut c_void) {
     }
 }
 
+pub fn all_node_ids(tree: &tree_sitter::Tree) -> Vec<usize> {
+    let mut ids: Vec<usize> = Vec::new();
+    let mut cursor = tree.walk();
+    let mut done = false;
+    while !done {
+        ids.push(cursor.node().id());
+        if cursor.goto_first_child() {
+            continue;
+        }
+        loop {
+            if cursor.goto_next_sibling() {
+                break;
+            }
+            if !cursor.goto_parent() {
+                done = true;
+                break;
+            }
+        }
+    }
+    ids
+}
+
 /// Counts pairs of distinct nodes in `tree` whose ids agree in the low 32 bits.
 pub fn id_collisions(tree: &tree_sitter::Tree) -> (usize, usize) {
     let mut ids: Vec<usize> = Vec::new();
